@@ -731,17 +731,37 @@ TT_LEAVES = [["base", 0, 0], ["inequality", 10, 0], ["range", 11, 0], ["element"
 TT_VIEWS = [["none"], ["sl", 2, 14, 3], ["list", 0, 5, 10, 15]]
 
 
-def tt_case(tree, extra=0):
-    """One tree on the truth-table dataset: build it, evaluate it (twice, two call forms, three
-    views), then evaluate every operand and intermediate selection again."""
+def tt_case(trees, extra=0):
+    """A few trees on the truth-table dataset (sharing their leaf objects): build each, evaluate it
+    (repeatedly, three call forms, three views), then evaluate every operand and intermediate
+    selection again."""
     b = Builder()
-    root = b.tree(tree)
-    prog = list(b.prog)
-    prog += [["eval", root, 0, 0, "kw"], ["eval", root, 0, 0, "kw"], ["eval", root, 0, 1, "pos"], ["eval", root, 0, 2, "kw"]]
-    for v in range(b.nvars - 1):
-        prog.append(["eval", v, 0, 0, "kw" if (v + extra) % 2 == 0 else "pos"])
-    prog.append(["eval", root, 0, 0, "bare"])
+    prog_evals = []
+    done = 0
+    for tree in trees:
+        root = b.tree(tree)
+        ev = [["eval", root, 0, 0, "kw"], ["eval", root, 0, 0, "kw"], ["eval", root, 0, 1, "pos"], ["eval", root, 0, 2, "kw"]]
+        for v in range(done, b.nvars - 1):
+            ev.append(["eval", v, 0, 0, "kw" if (v + extra) % 2 == 0 else "pos"])
+        ev.append(["eval", root, 0, 0, "bare"])
+        prog_evals.append((len(b.prog), ev))
+        done = b.nvars
+    prog, pos = [], 0
+    for (upto, ev) in prog_evals:
+        prog += b.prog[pos:upto] + ev
+        pos = upto
     return [["T16"], TT_VIEWS, TT_LEAVES, prog]
+
+
+def packed(trees, k=3):
+    buf = []
+    for t in trees:
+        buf.append(t)
+        if len(buf) == k:
+            yield buf
+            buf = []
+    if buf:
+        yield buf
 
 
 class TruthTable(ProgFamily):
@@ -749,44 +769,45 @@ class TruthTable(ProgFamily):
     truth-table rows (mixed leaf classes: memoised Inequality / Element / Category, plain Range)."""
     name = "tt"
     exhaustive = True
-    budget_share = 2.0
+    budget_share = 3.0
 
-    def cases(self, tier, rng):
+    def trees(self, tier, rng):
         leaves = [1, 2, 3, 4]
         # depth <= 2, binary ops + inversion: exhaustive
-        for t in trees_upto(2, leaves):
-            yield tt_case(t)
+        yield from trees_upto(2, leaves)
         # many-way or: at the root over all depth-<=1 operands; under / next to every operator
         d1 = trees_upto(1, [1, 2, 3])
         if tier == "quick":
             for a in d1:
                 for b_ in d1:
-                    yield tt_case(["mor", a, b_], 1)
+                    yield ["mor", a, b_]
             for op in ("and", "or", "xor"):
                 for x, y, z in itertools.product([1, 2, 3], repeat=3):
-                    yield tt_case([op, ["mor", x, y], z], 1)
-                    yield tt_case(["mor", [op, x, y], z, ["inv", x]], 1)
+                    yield [op, ["mor", x, y], z]
+                    yield ["mor", [op, x, y], z, ["inv", x]]
             for x, y in itertools.product([1, 2, 3], repeat=2):
-                yield tt_case(["inv", ["mor", x, y]], 1)
-                yield tt_case(["mor", ["mor", x, y], y], 1)
+                yield ["inv", ["mor", x, y]]
+                yield ["mor", ["mor", x, y], y]
         else:
             for t in trees_upto(2, [1, 2, 3], with_mor=True):
                 if "mor" in repr(t):
-                    yield tt_case(t, 1)
+                    yield t
         for a, b_, c in itertools.product([1, 2, 3, 4, ["inv", 1], ["and", 2, 3]], repeat=3):
-            yield tt_case(["mor", a, b_, c])
+            yield ["mor", a, b_, c]
+        if tier == "thorough":
+            yield from trees_upto(2, [5, 6, 7, 8])   # same masks through other leaf classes
+
+    def cases(self, tier, rng):
+        for i, ts in enumerate(packed(self.trees(tier, rng))):
+            yield tt_case(ts, i % 2)
         # depth 3: every operator over sampled depth-2 operands (seeded)
-        d2 = trees_upto(2, leaves)
+        d2 = trees_upto(2, [1, 2, 3, 4])
         n = 800 if tier == "quick" else 20000
         for _ in range(n):
             op = rng.choice(["and", "or", "xor", "inv", "mor"])
             a, b_ = rng.choice(d2), rng.choice(d2)
             t = ["inv", a] if op == "inv" else [op, a, b_]
-            yield tt_case(t, rng.randint(0, 1))
-        if tier == "thorough":
-            alt = [5, 6, 7, 8]   # same masks through other leaf classes
-            for t in trees_upto(2, alt):
-                yield tt_case(t)
+            yield tt_case([t, rng.choice(d2)], rng.randint(0, 1))
 
 
 def none_view_index(views):
